@@ -59,6 +59,12 @@ def property_units(prop):
                 seen.add(h.name)
                 out.append(h)
                 todo.append(h)
+        for nm in getattr(u, 'also', []):
+            h = reg.get(nm)
+            if h is not None and h.name not in seen:
+                seen.add(h.name)
+                out.append(h)
+                todo.append(h)
     return out, reg
 
 
